@@ -2,6 +2,7 @@ package ply
 
 import (
 	"errors"
+	"fmt"
 	"strconv"
 )
 
@@ -12,9 +13,17 @@ type listAsciiPropertyReader struct {
 }
 
 func (lpr *listAsciiPropertyReader) Read(line []string) (offset int, err error) {
+	if len(line) == 0 {
+		return -1, fmt.Errorf("list property %q: missing list size", lpr.property.PropertyName)
+	}
+
 	v, err := strconv.ParseInt(line[0], 10, 32)
 	if err != nil {
 		return -1, err
+	}
+
+	if v < 0 || int(v) > len(line)-1 {
+		return -1, fmt.Errorf("list property %q: list size %d but %d values present", lpr.property.PropertyName, v, len(line)-1)
 	}
 	lpr.lastReadListSize = int32(v)
 
